@@ -37,6 +37,10 @@ func (m *F81Model) Distance(seq1 []uint8, seq2 []uint8, weights []float64) (floa
 
 	diff, total := countDiffs(seq1, seq2, m.selectedSites, weights, false)
 	diff = diff / total
+	if 1.-diff/m.b1 < 0 {
+		// Saturated: the distance is undefined (also with the gamma correction)
+		return math.NaN(), nil
+	}
 
 	if m.gamma {
 		dist = 1. * m.b1 * m.alpha * (math.Pow(1.-diff/m.b1, -1./m.alpha) - 1.)
